@@ -46,6 +46,9 @@ Definition loc_eqb (a b : loc) : bool :=
 Definition age_eqb (a b : age) : bool :=
   match a, b with Fresh, Fresh | Young, Young | Old, Old => true | _, _ => false end.
 
+Fixpoint memN (x : N) (l : list N) : bool :=
+  match l with [] => false | y :: l' => if x =? y then true else memN x l' end.
+
 (* index entry of the key's hash *)
 Inductive ient := IAddr (sq v b : N) | ITomb (sq : N).
 Definition iseq (i : ient) : N := match i with IAddr sq _ _ => sq | ITomb sq => sq end.
@@ -82,22 +85,23 @@ Record kst := mkK {
   kdone : bool;                    (* a submission of that run has completed *)
   ksubs : list N;                  (* versions ever submitted as CacheEntry, in order *)
   kinmem : list N;                 (* versions inserted with in-memory-only advice *)
-  kout : list (N * option N * option N) }.   (* answered lookups: (id, result, truth when answered) *)
+  kout : list (N * option N * option N);     (* answered lookups: (id, result, truth when answered) *)
+  kondisk : list N }.              (* versions inserted with on-disk advice (their records are phantoms) *)
 
-Definition init_k : kst := mkK None None [] [] None [] [] 1 [] None 1 None 0 false [] [] [].
+Definition init_k : kst := mkK None None [] [] None [] [] 1 [] None 1 None 0 false [] [] [] [].
 
 (* setters *)
-Definition set_mem s x := mkK x (kkeep s) (kq s) (ki s) (kidx s) (kdisk s) (ktlog s) (kseq s) (kload s) (ktruth s) (knext s) (ktop s) (klo s) (kdone s) (ksubs s) (kinmem s) (kout s).
-Definition set_keep s x := mkK (kmem s) x (kq s) (ki s) (kidx s) (kdisk s) (ktlog s) (kseq s) (kload s) (ktruth s) (knext s) (ktop s) (klo s) (kdone s) (ksubs s) (kinmem s) (kout s).
-Definition set_q s x := mkK (kmem s) (kkeep s) x (ki s) (kidx s) (kdisk s) (ktlog s) (kseq s) (kload s) (ktruth s) (knext s) (ktop s) (klo s) (kdone s) (ksubs s) (kinmem s) (kout s).
-Definition set_i s x := mkK (kmem s) (kkeep s) (kq s) x (kidx s) (kdisk s) (ktlog s) (kseq s) (kload s) (ktruth s) (knext s) (ktop s) (klo s) (kdone s) (ksubs s) (kinmem s) (kout s).
-Definition set_idx s x := mkK (kmem s) (kkeep s) (kq s) (ki s) x (kdisk s) (ktlog s) (kseq s) (kload s) (ktruth s) (knext s) (ktop s) (klo s) (kdone s) (ksubs s) (kinmem s) (kout s).
-Definition set_disk s x := mkK (kmem s) (kkeep s) (kq s) (ki s) (kidx s) x (ktlog s) (kseq s) (kload s) (ktruth s) (knext s) (ktop s) (klo s) (kdone s) (ksubs s) (kinmem s) (kout s).
-Definition set_tlog s x := mkK (kmem s) (kkeep s) (kq s) (ki s) (kidx s) (kdisk s) x (kseq s) (kload s) (ktruth s) (knext s) (ktop s) (klo s) (kdone s) (ksubs s) (kinmem s) (kout s).
-Definition set_load s x := mkK (kmem s) (kkeep s) (kq s) (ki s) (kidx s) (kdisk s) (ktlog s) (kseq s) x (ktruth s) (knext s) (ktop s) (klo s) (kdone s) (ksubs s) (kinmem s) (kout s).
-Definition set_truth s x := mkK (kmem s) (kkeep s) (kq s) (ki s) (kidx s) (kdisk s) (ktlog s) (kseq s) (kload s) x (knext s) (ktop s) (klo s) (kdone s) (ksubs s) (kinmem s) (kout s).
-Definition set_done s x := mkK (kmem s) (kkeep s) (kq s) (ki s) (kidx s) (kdisk s) (ktlog s) (kseq s) (kload s) (ktruth s) (knext s) (ktop s) (klo s) x (ksubs s) (kinmem s) (kout s).
-Definition add_out s x := mkK (kmem s) (kkeep s) (kq s) (ki s) (kidx s) (kdisk s) (ktlog s) (kseq s) (kload s) (ktruth s) (knext s) (ktop s) (klo s) (kdone s) (ksubs s) (kinmem s) (kout s ++ [x]).
+Definition set_mem s x := mkK x (kkeep s) (kq s) (ki s) (kidx s) (kdisk s) (ktlog s) (kseq s) (kload s) (ktruth s) (knext s) (ktop s) (klo s) (kdone s) (ksubs s) (kinmem s) (kout s) (kondisk s).
+Definition set_keep s x := mkK (kmem s) x (kq s) (ki s) (kidx s) (kdisk s) (ktlog s) (kseq s) (kload s) (ktruth s) (knext s) (ktop s) (klo s) (kdone s) (ksubs s) (kinmem s) (kout s) (kondisk s).
+Definition set_q s x := mkK (kmem s) (kkeep s) x (ki s) (kidx s) (kdisk s) (ktlog s) (kseq s) (kload s) (ktruth s) (knext s) (ktop s) (klo s) (kdone s) (ksubs s) (kinmem s) (kout s) (kondisk s).
+Definition set_i s x := mkK (kmem s) (kkeep s) (kq s) x (kidx s) (kdisk s) (ktlog s) (kseq s) (kload s) (ktruth s) (knext s) (ktop s) (klo s) (kdone s) (ksubs s) (kinmem s) (kout s) (kondisk s).
+Definition set_idx s x := mkK (kmem s) (kkeep s) (kq s) (ki s) x (kdisk s) (ktlog s) (kseq s) (kload s) (ktruth s) (knext s) (ktop s) (klo s) (kdone s) (ksubs s) (kinmem s) (kout s) (kondisk s).
+Definition set_disk s x := mkK (kmem s) (kkeep s) (kq s) (ki s) (kidx s) x (ktlog s) (kseq s) (kload s) (ktruth s) (knext s) (ktop s) (klo s) (kdone s) (ksubs s) (kinmem s) (kout s) (kondisk s).
+Definition set_tlog s x := mkK (kmem s) (kkeep s) (kq s) (ki s) (kidx s) (kdisk s) x (kseq s) (kload s) (ktruth s) (knext s) (ktop s) (klo s) (kdone s) (ksubs s) (kinmem s) (kout s) (kondisk s).
+Definition set_load s x := mkK (kmem s) (kkeep s) (kq s) (ki s) (kidx s) (kdisk s) (ktlog s) (kseq s) x (ktruth s) (knext s) (ktop s) (klo s) (kdone s) (ksubs s) (kinmem s) (kout s) (kondisk s).
+Definition set_truth s x := mkK (kmem s) (kkeep s) (kq s) (ki s) (kidx s) (kdisk s) (ktlog s) (kseq s) (kload s) x (knext s) (ktop s) (klo s) (kdone s) (ksubs s) (kinmem s) (kout s) (kondisk s).
+Definition set_done s x := mkK (kmem s) (kkeep s) (kq s) (ki s) (kidx s) (kdisk s) (ktlog s) (kseq s) (kload s) (ktruth s) (knext s) (ktop s) (klo s) x (ksubs s) (kinmem s) (kout s) (kondisk s).
+Definition add_out s x := mkK (kmem s) (kkeep s) (kq s) (ki s) (kidx s) (kdisk s) (ktlog s) (kseq s) (kload s) (ktruth s) (knext s) (ktop s) (klo s) (kdone s) (ksubs s) (kinmem s) (kout s ++ [x]) (kondisk s).
 
 (* indexer.insert_inner: an equal or higher sequence replaces *)
 Definition idx_insert (cur : option ient) (i : ient) : option ient :=
@@ -119,7 +123,7 @@ Definition idx_get (cur : option ient) : option (N * N * N) :=
 Definition engine_delete (s : kst) : kst :=
   let sq := kseq s in
   mkK (kmem s) (kkeep s) (kq s ++ [STomb sq]) (ki s) (idx_insert (kidx s) (ITomb sq)) (kdisk s) (ktlog s)
-      (sq + 1) (kload s) (ktruth s) (knext s) (Some (None, sq)) sq false (ksubs s) (kinmem s) (kout s).
+      (sq + 1) (kload s) (ktruth s) (knext s) (Some (None, sq)) sq false (ksubs s) (kinmem s) (kout s) (kondisk s).
 
 (* store.delete *)
 Definition store_delete (s : kst) : kst := engine_delete (set_keep s None).
@@ -137,7 +141,7 @@ Definition store_enqueue (c : hcfg) (s : kst) (v : N) (a : age) : kst :=
             (sq + 1) (kload s) (ktruth s) (knext s) (Some (Some v, sq))
             (match ktop s with Some (Some v', _) => if v' =? v then klo s else sq | _ => sq end)
             (match ktop s with Some (Some v', _) => if v' =? v then kdone s else false | _ => false end)
-            (ksubs s ++ [v]) (kinmem s) (kout s)
+            (ksubs s ++ [v]) (kinmem s) (kout s) (kondisk s)
     end
   else store_delete s.
 
@@ -153,7 +157,8 @@ Definition do_insert (c : hcfg) (s : kst) (l : loc) : kst :=
                 (kseq s) [] (Some v) (v + 1) (ktop s) (klo s) (kdone s) (ksubs s)
                 (match l with LInMem => kinmem s ++ [v] | _ => kinmem s end)
                 (* emplace takes the in-flight entry of the key: its waiters are answered with the new record *)
-                (kout s ++ map (fun x => (fst (fst x), Some v, Some v)) (kload s)) in
+                (kout s ++ map (fun x => (fst (fst x), Some v, Some v)) (kload s))
+                (if phantom then kondisk s ++ [v] else kondisk s) in
   if woi c then
     match l with LInMem => s1 | _ => store_enqueue c s1 v Fresh end
   else if phantom then pipe_send c s1 v l Fresh      (* the phantom record leaves memory through the pipe *)
@@ -264,7 +269,11 @@ Definition do_load_finish (s : kst) (i : N) (a : age) : kst :=
       let s1 := add_out (set_load s (del_load i (kload s))) (i, r, ktruth s) in
       match r with
       | Some v => match kmem s with
-                  | None => set_mem s1 (Some (v, LDefault, if fromk then Fresh else match a with Fresh => Young | _ => a end))
+                  | None =>
+                      (* insert_piece of a disk-only (phantom) record: emplace drops it again at once, and the handle's
+                         drop does not offer it to the pipe a second time (Source::Memory) *)
+                      if fromk && memN v (kondisk s) then s1
+                      else set_mem s1 (Some (v, LDefault, if fromk then Fresh else match a with Fresh => Young | _ => a end))
                   | Some _ => s1
                   end
       | None => s1
@@ -311,7 +320,7 @@ Definition do_recover (c : hcfg) (s : kst) (vis : list (N * N * N)) : kst :=
   let idx := match best with Some (IAddr sq v b) => best | _ => None end in
   mkK None None [] [] idx (kdisk s) (ktlog s)
       (match best with Some i => iseq i + 1 | None => 1 end)
-      [] (ktruth s) (knext s) top (klo s) true (ksubs s) (kinmem s) (kout s).
+      [] (ktruth s) (knext s) top (klo s) true (ksubs s) (kinmem s) (kout s) (kondisk s).
 
 Inductive act :=
 | KIns (l : loc)
